@@ -149,6 +149,11 @@ pub enum Mut {
   Respell(u32, u8),
   /// the footer segment replaced by the encoding of ANOTHER SPELLING of the same JSON object (applies to JSON-object footers)
   FooterJsonRespell(u8),
+  /// the footer segment written k = 2..=4 times in a row (0: cut down to one period of itself, if it is periodic)
+  FooterRepeat(u8),
+  /// the footer segment replaced by the encoding of the footer text with one invisible / look-alike character inserted or
+  /// swapped in at a position (soft hyphen, zero-width characters, variation selector; `gen::confusable`)
+  FooterLookAlike(u16, u8),
 }
 
 impl Mut {
@@ -169,6 +174,8 @@ impl Mut {
       Mut::Prepend(_) => "prepend",
       Mut::Respell(..) => "respell-char",
       Mut::FooterJsonRespell(_) => "footer-json-respelt",
+      Mut::FooterRepeat(_) => "footer-segment-repeated",
+      Mut::FooterLookAlike(..) => "footer-look-alike",
       Mut::InsertText(..) => "insert-text",
       Mut::DupRange(..) => "duplicate-range",
       Mut::Splice(..) => "splice",
@@ -324,6 +331,35 @@ pub fn apply(m: &Mut, spec: &TokSpec, t: &str) -> Option<String> {
         return None;
       }
       Some(format!("{pre}{t}"))
+    }
+    Mut::FooterRepeat(k) => {
+      let f = fseg?;
+      if f.is_empty() {
+        return None;
+      }
+      let seg = if *k % 4 == 0 {
+        let n = f.len();
+        let p = (1..n).find(|p| n % p == 0 && f.as_bytes().chunks(*p).all(|c| c == &f.as_bytes()[..*p]))?;
+        f[..p].to_string()
+      } else {
+        f.repeat(1 + (*k as usize % 4))
+      };
+      Some(rejoin(&header, &pseg, Some(&seg)))
+    }
+    Mut::FooterLookAlike(at, how) => {
+      let f = fseg?;
+      let text = String::from_utf8(unb64(&f)?).ok()?;
+      if text.is_empty() {
+        return None;
+      }
+      let other = if how % 2 == 0 {
+        let mut chars: Vec<char> = text.chars().collect();
+        chars.insert(crate::engine::pick(*at, chars.len() + 1), crate::c05::INVISIBLES[(*how as usize / 2) % crate::c05::INVISIBLES.len()]);
+        chars.into_iter().collect::<String>()
+      } else {
+        crate::gen::confusable(&text, how / 2)?
+      };
+      Some(rejoin(&header, &pseg, Some(&b64(other.as_bytes()))))
     }
     Mut::FooterJsonRespell(how) => {
       let f = fseg?;
@@ -597,6 +633,14 @@ pub fn exhaustive_mutations(spec: &TokSpec, stride: usize) -> Vec<Mut> {
   for how in 0..5u8 {
     v.push(Mut::FooterJsonRespell(how));
   }
+  for k in 0..4u8 {
+    v.push(Mut::FooterRepeat(k));
+  }
+  for how in 0..40u8 {
+    for at in [0u16, 9000, 21000, 40000, 65535] {
+      v.push(Mut::FooterLookAlike(at, how));
+    }
+  }
   // every character written as its percent-escape; every 7th in the other styles
   for j in 0..l {
     v.push(Mut::Respell(j, 0));
@@ -649,6 +693,8 @@ fn simple_mut() -> BoxedStrategy<Mut> {
     2 => (0u8..2, 0u8..19).prop_map(|(s, k)| Mut::B64Variant(s, k)),
     2 => (0u32..700, 0u8..5).prop_map(|(j, s)| Mut::Respell(j, s)),
     1 => (0u8..5).prop_map(Mut::FooterJsonRespell),
+    1 => (0u8..8).prop_map(Mut::FooterRepeat),
+    2 => (any::<u16>(), any::<u8>()).prop_map(|(a, h)| Mut::FooterLookAlike(a, h)),
   ]
   .boxed()
 }
@@ -887,7 +933,7 @@ pub fn run(ctx: &Ctx) -> EvidenceMeta {
   // footers whose text ends in NULs, blanks or '=' (what a fixed, zero-filled or padded buffer would hide): every exhaustive
   // operator again - among them every prefix of the token text, which cuts the footer segment back byte by byte
   for s in subs.iter().filter(|s| s.kind == "exhaustive" && matches!(s.proto, Proto::V4L | Proto::V2L | Proto::V4P)) {
-    for (i, f) in ["kid-7\u{0}\u{0}", "\u{0}", "ab\u{0}", "k \u{0}\u{0}\u{0}", "pad==", "trailing  "].into_iter().enumerate() {
+    for (i, f) in ["kid-7\u{0}\u{0}", "\u{0}", "ab\u{0}", "k \u{0}\u{0}\u{0}", "pad==", "trailing  ", "fff", "abcabcabcabc"].into_iter().enumerate() {
       jobs.push(Box::new(move || {
         let mut spec = fixed_spec(s.proto, s.layer, 1 + 2 * (i as u8 % 3));
         spec.footer = Some(f.to_string());
